@@ -13,7 +13,8 @@ from .. import refsem as R
 
 ID = 'C09'
 LEVEL = 'exploration'
-RULE = ('Hypothesis arguments (generic / modal-heavy / quantifier-heavy profiles) x logic; for each argument the whole '
+RULE = ('Hypothesis arguments (generic / modal-heavy / quantifier-heavy profiles, and a validity-biased profile: instances of '
+        'standard valid forms wrapped in monotone modal / propositional contexts with extra premises) x logic; for each argument the whole '
         'grid {group optim on/off} x {rank optim on/off} x {build(), step loop} is run, plus extra tie-break order seeds '
         'at the default options, plus a permutation and a duplication of the premises. Oracle: no configuration raises; '
         'the set of non-limited outcome classes (valid / invalid with a limit-free open branch) over all runs of the '
@@ -28,6 +29,37 @@ PROFILES = {
     'quant-heavy': gen.Profile(w_atom=2, w_pred=7, w_ident=1, w_neg=3, w_bin=5, w_modal=2, w_quant=8, max_depth=3,
                                consts=(A.const(1), A.const(0))),
 }
+
+
+def wrapped_valid(data, logic):
+    """Arguments biased to validity (where an incomplete search flips the verdict): an instance of a standard
+    valid form, its premises and conclusion wrapped in the same chain of monotone contexts, plus extra premises."""
+    from . import c11
+    sch = [(t, p, c) for t, p, c in c11.schemata() if all(c11.fragment_ok(logic, x) for x in (*p, c))]
+    title, prem, con = sch[data.draw(st.integers(0, len(sch) - 1))]
+    prof = PROFILES['generic'].for_logic(logic)
+    atoms = sorted(set().union(*(A.atoms(x) for x in (*prem, con))))
+    mp = {}
+    for a in atoms:
+        if data.draw(st.integers(0, 2)) == 0:
+            mp[a] = data.draw(gen.sentence(prof, data.draw(st.integers(0, 2))))
+    prem = [c11.subst_atoms(x, mp) for x in prem]
+    con = c11.subst_atoms(con, mp)
+    if len(prem) == 1:
+        side = data.draw(gen.sentence(prof, 1))
+        for _ in range(data.draw(st.integers(0, 3))):
+            k = data.draw(st.integers(0, 3))
+            if k == 0 and R.is_modal(logic):
+                prem, con = [A.op('Necessity', prem[0])], A.op('Necessity', con)
+            elif k == 1 and R.is_modal(logic):
+                prem, con = [A.op('Possibility', prem[0])], A.op('Possibility', con)
+            elif k == 2:
+                prem, con = [A.op('Conjunction', prem[0], side)], A.op('Conjunction', con, side)
+            elif k == 3:
+                prem, con = [A.op('Disjunction', side, prem[0])], A.op('Disjunction', side, con)
+    for _ in range(data.draw(st.integers(0, 2))):
+        prem.insert(data.draw(st.integers(0, len(prem))), data.draw(gen.sentence(prof, data.draw(st.integers(0, 2)))))
+    return prem, con
 
 
 def where(e):
@@ -116,11 +148,14 @@ def run_shard(shard, acc):
               phases=[Phase.generate], suppress_health_check=list(HealthCheck))
     @given(st.data())
     def body(data):
-        pname = ('generic', 'modal-heavy', 'quant-heavy')[data.draw(st.integers(0, 2))]
+        pname = ('generic', 'modal-heavy', 'quant-heavy', 'valid-biased', 'valid-biased')[data.draw(st.integers(0, 4))]
         pred = {'modal-heavy': R.is_modal, 'quant-heavy': R.is_quantified}.get(pname)
         logic = data.draw(gen.logic_name(pred))
-        prof = PROFILES[pname].for_logic(logic)
-        prem, con = data.draw(gen.argument(prof, 3))
+        if pname == 'valid-biased':
+            prem, con = wrapped_valid(data, logic)
+        else:
+            prof = PROFILES[pname].for_logic(logic)
+            prem, con = data.draw(gen.argument(prof, 3))
         case = prover.mk_case(logic, prem, con, order=data.draw(st.integers(0, 3)), max_steps=MAX_STEPS)
         case['orders'] = [data.draw(st.integers(4, 10 ** 6)) for _ in range(shard['norders'])]
         if len(prem) > 1:
